@@ -50,7 +50,8 @@ struct nv_ghost
 {
   uint64_t nfields;        /* number of fields transferred so far */
   int64_t  f_off, f_w;     /* offset and width of field nv_g */
-  uint64_t f_val;          /* writer: little-endian value of field nv_g when its width is <= 8, else its content identity */
+  uint64_t f_val;          /* writer: value of field nv_g when its width is 1, 4 or 8 */
+  uint64_t f_cid;          /* writer: content identity of field nv_g when it is the identified block (c_ptr, c_n) */
   /* content identity of the most recent bulk transfer: `c_n` bytes at `c_ptr` hold content `c_id` */
   const void* c_ptr; int64_t c_n; uint64_t c_id;
   _Bool size_exact;        /* tensor.h: the last resize() computed the exact product of non-negative dimensions */
@@ -59,6 +60,7 @@ struct nv_ghost
 #define nv_f_off nv_gh.f_off
 #define nv_f_w nv_gh.f_w
 #define nv_f_val nv_gh.f_val
+#define nv_f_cid nv_gh.f_cid
 #define nv_c_ptr nv_gh.c_ptr
 #define nv_c_n nv_gh.c_n
 #define nv_c_id nv_gh.c_id
@@ -109,11 +111,11 @@ static struct nv_ostream* nv_ostream_write(struct nv_ostream* s, const char* src
   if (nv_nfields == nv_g)
   {
     nv_f_off = s->pos; nv_f_w = n;
-    if (n == 4) nv_f_val = (uint64_t)(uint8_t)src[0] | (uint64_t)(uint8_t)src[1] << 8 | (uint64_t)(uint8_t)src[2] << 16 | (uint64_t)(uint8_t)src[3] << 24;
-    else if (n == 8) nv_f_val = (uint64_t)(uint8_t)src[0] | (uint64_t)(uint8_t)src[1] << 8 | (uint64_t)(uint8_t)src[2] << 16 | (uint64_t)(uint8_t)src[3] << 24
-                              | (uint64_t)(uint8_t)src[4] << 32 | (uint64_t)(uint8_t)src[5] << 40 | (uint64_t)(uint8_t)src[6] << 48 | (uint64_t)(uint8_t)src[7] << 56;
-    else if (n == 1) nv_f_val = (uint64_t)(uint8_t)src[0];
-    else nv_f_val = (src == (const char*)nv_c_ptr && n == nv_c_n) ? nv_c_id : nv_nondet_uint64_t();
+    if (n == 4) nv_f_val = *(const uint32_t*)src;
+    else if (n == 8) nv_f_val = *(const uint64_t*)src;
+    else if (n == 1) nv_f_val = *(const uint8_t*)src;
+    else nv_f_val = nv_nondet_uint64_t();
+    nv_f_cid = (n > 0 && src == (const char*)nv_c_ptr && n == nv_c_n) ? nv_c_id : nv_nondet_uint64_t();
   }
   nv_nfields = nv_nfields + 1;
   if (s->fail || n < 0) { s->fail = 1; return s; }
